@@ -1,6 +1,7 @@
 import GceTcb.Base.Line
 import GceTcb.Model.Codecs
 import GceTcb.Model.EventLog
+import GceTcb.Model.EventLogRecv
 /-
 Driver handler for stream `c18` (binary codecs).
 
@@ -10,6 +11,12 @@ Driver handler for stream `c18` (binary codecs).
   c18 op=create uuid=<hex> data=<hex>               CreateEFIHOBGUID + WriteTo         → ok:<fields>:<hex> | err
   c18 op=rd    s=<item> kind=buffer|reader b=<hex>  Unmarshal from a reader            → ok:<value> rest=<n> | eof | err
   c18 op=wr    s=<item> v=<value>                   Marshal                            → ok:<hex> | err
+  c18 op=rdinto s=<item> kind=… prev=<hex>,<hex>…|- b=<hex>   Unmarshal of each `prev` input and then of `b` into ONE
+        value that starts as the zero value (errors of the `prev` decodes are ignored: the receiver keeps what they left)
+                                                     → ok:<value>[ rest=<n>] enc=<hex>|err  |  eof:<value> enc=…  |  err:<value> enc=…
+        (<value> is what the receiver holds after the call — also after a failed one — and enc its Marshal result)
+  c18 op=popinto prev=<hex>,…|- b=<hex>             FwGUIDEntry.PopulateFromBytes into one value → ok|err|panic:size=…,guid=…
+  c18 op=putinto s=reset addr= size= guid= buf=<hex> PutSevEsResetBlock, the buffer on every path → ok|err:<hex>
 
 `strictShortRead` selects the model of the event-log readers: `true` = the code as it is in the
 repository after the event-log repair (readExact / io.ReadFull, log ends only at a clean end of input),
@@ -197,6 +204,56 @@ def handleWr (f : Fields) : String :=
   | "event3" => match parseEvent3 v with | some e => showOpt (marshalEvent3 e) | none => "bad-op"
   | _ => "bad-op"
 
+/-! decoding into a used receiver (Model/EventLogRecv.lean) -/
+
+def showEnc : Option Bytes → String
+  | some b => hex b
+  | none => "err"
+
+def showRRes {α : Type} (f : α → String) (enc : α → Option Bytes) (withRest : Bool) : RRes α → String
+  | .ok a rest => "ok:" ++ f a ++ (if withRest then s!" rest={rest.length}" else "") ++ " enc=" ++ showEnc (enc a)
+  | .eof a => "eof:" ++ f a ++ " enc=" ++ showEnc (enc a)
+  | .fail a => "err:" ++ f a ++ " enc=" ++ showEnc (enc a)
+
+def prevList (s : String) : List Bytes := if s == "-" then [] else (s.splitOn ",").map hexD
+
+/-- the receiver after the `prev` inputs were decoded into the zero value one after the other, then `b` into it -/
+def intoChain {α : Type} (step : α → Bytes → RRes α) (zero : α) (prevs : List Bytes) (b : Bytes) : RRes α :=
+  step (prevs.foldl (fun r p => (step r p).recv) zero) b
+
+def PcrEvent.zero : PcrEvent := ⟨0, 0, zeros 20, .raw []⟩
+
+def handleRdInto (f : Fields) : String :=
+  let b := f.bytes "b"
+  let prevs := prevList (f.get "prev")
+  let k : RKind := if f.get "kind" == "reader" then .reader else .buffer
+  let v := Variant.tree
+  match f.get "s" with
+  | "cstr" => showRRes hex writeCStr true (intoChain (readCStrInto v k) [] prevs b)
+  | "u32arr" => showRRes hex writeU32Array true (intoChain (readU32ArrayInto v k) [] prevs b)
+  | "guid" => showRRes hex (fun g => some (writeGuid g)) true (intoChain readGuidInto (zeros 16) prevs b)
+  | "digest" => showRRes showDigest writeDigest true (intoChain readDigestInto Digest.zero prevs b)
+  | "pcrevent" => showRRes showPcrEvent writePcrEvent true (intoChain (readPcrEventInto v k) PcrEvent.zero prevs b)
+  | "event2" => showRRes showEvent2 writeEvent2 true (intoChain (readEvent2Into v k) Event2.zero prevs b)
+  | "log" => showRRes showLog writeLog false (intoChain (readLogInto v k) ⟨PcrEvent.zero, []⟩ prevs b)
+  | "event3" => showRRes showEvent3 marshalEvent3 false (intoChain (unmarshalEvent3Into v) Event3.zero prevs b)
+  | _ => "bad-op"
+
+def showPop (r : Outcome Unit × FwGuidEntry) : String :=
+  (match r.1 with | .ok _ => "ok" | .err _ => "err" | .panic _ => "panic") ++ s!":size={r.2.size},guid={hex r.2.guid}"
+
+def handlePopInto (f : Fields) : String :=
+  let zero : FwGuidEntry := ⟨0, zeros 16⟩
+  let r0 := (prevList (f.get "prev")).foldl (fun r p => (fwGuidEntryPopulateInto r p).2) zero
+  showPop (fwGuidEntryPopulateInto r0 (f.bytes "b"))
+
+def handlePutInto (f : Fields) : String :=
+  match f.get "s" with
+  | "reset" =>
+    let r := putSevEsResetBlockInto ⟨f.nat "addr", f.nat "size", f.bytes "guid"⟩ (f.bytes "buf")
+    (match r.1 with | .ok _ => "ok:" | .err _ => "err:" | .panic _ => "panic:") ++ hex r.2
+  | _ => "bad-op"
+
 def handle (f : Fields) : String :=
   match f.get "op" with
   | "put" => handlePut f
@@ -205,6 +262,9 @@ def handle (f : Fields) : String :=
   | "create" => handleCreate f
   | "rd" => handleRd f
   | "wr" => handleWr f
+  | "rdinto" => handleRdInto f
+  | "popinto" => handlePopInto f
+  | "putinto" => handlePutInto f
   | _ => "bad-op"
 
 end GceTcb.Drive.C18
